@@ -332,40 +332,120 @@ def rand_coords(rng, shape):
 
 
 def decorate(rng, m, ml):
-    """random element / label / attributes on the atoms and bonds of m, random name / charge / mult / attrib"""
+    """random values of EVERY field the constructors accept on atoms, bonds and the molecule (incl. falsy non-default
+    values, duplicate and empty labels), attribute dictionaries with nested and internally shared containers"""
     for a in m.atoms:
-        a.element = rng.choice(["C", "N", "O", "H", "S", "Cl", "P"])
-        a.label = rng.choice([None, "L1", "X", f"a{rng.below(5)}"])
-        a.isotope = rng.choice([None, None, 13])
+        a.element = rng.choice(["C", "N", "O", "H", "S", "Cl", "P", "Unknown", "Fe"])
+        a.label = rng.choice([None, "", "L1", "X", "X", f"a{rng.below(5)}"])
+        a.isotope = rng.choice([None, None, 0, 13])
         a.formal_charge = rng.choice([0, 0, 1, -1])
         a.formal_spin = rng.choice([0, 0, 1])
-        a.atype = rng.choice(list(ml.AtomType)[:6])
+        a.atype = rng.choice(list(ml.AtomType))
+        a.stereo = rng.choice(list(ml.AtomStereo))
+        a.geom = rng.choice(list(ml.AtomGeom))
         a.attrib = rand_attrib(rng, 2, 55)
     if has_bonds(m):
-        for b in m.bonds:
-            b.btype = rng.choice([ml.BondType.Single, ml.BondType.Double, ml.BondType.Aromatic])
-            b.label = rng.choice([None, "b"])
-            b.attrib = rand_attrib(rng, 2, 60)
-    m.name = rng.choice(["unknown", "m1", "frag", "x_y"])
+        for k, b in enumerate(m.bonds):
+            b.btype = rng.choice(list(ml.BondType))
+            b.stereo = rng.choice(list(ml.BondStereo))
+            b.f_order = rng.choice([1.0, 1.0, 0.0, 1.5])
+            b.label = rng.choice([None, "", "b", f"b{k}"])
+            b.attrib = rand_attrib(rng, 2, 50)
+    m.name = rng.choice(["unknown", "m1", "frag", "x_y", ""])
     m.charge = rng.choice([0, 0, 1, -2])
     m.mult = rng.choice([1, 1, 2, 3])
     m.attrib = rand_attrib(rng, 3, 25)
+    if rng.below(100) < 15 and m.n_atoms:
+        # one container referenced from two places of the same object (pickle / deepcopy keep that, evolve need not)
+        shared = [1, {"s": 2}]
+        m.attrib["sh1"] = shared
+        m.atoms[0].attrib["sh"] = shared
+        m.atoms[-1].attrib["sh"] = shared
 
 
-def rand_bonds(rng, m):
-    n = m.n_atoms
+FORCE: set[str] = set()   # corpus cases can force structural features: "parallel", "selfbond"
+
+
+def rand_bonds(rng, m, keep_last_single=False):
+    """a random multigraph on the atoms of m, built through every bond-adding entry point of the API:
+    a forest (some atoms stay without bonds), extra edges, 2..3 bonds between one pair (either orientation), a bond from an atom
+    to itself"""
+    import molli as ml
+
+    n = m.n_atoms - (1 if keep_last_single else 0)
+    atoms = m.atoms
+
+    def add(i, j):
+        how = rng.below(4)
+        if how == 0:
+            m.connect(i, j)
+        elif how == 1:
+            m.append_bond(ml.Bond(atoms[i], atoms[j]))
+        elif how == 2:
+            m.append_bonds(ml.Bond(atoms[i], atoms[j]))
+        else:
+            m.extend_bonds([ml.Bond(atoms[i], atoms[j])])
+
     for i in range(1, n):
-        m.connect(rng.below(i), i)
+        if rng.below(100) < 82:
+            add(rng.below(i), i)
     for _ in range(rng.range(0, 2)):
-        if n >= 3:
+        if n >= 2:
             i, j = rng.below(n), rng.below(n)
-            if i != j and m.lookup_bond(i, j) is None:
-                m.connect(i, j)
+            if i != j:
+                add(i, j)      # may be a second bond between a bonded pair
+    if n >= 2 and m.n_bonds and (rng.below(100) < 30 or "parallel" in FORCE):
+        b = rng.choice(list(m.bonds))
+        i, j = atoms.index(b.a1), atoms.index(b.a2)
+        if i < n and j < n:
+            for _ in range(rng.range(1, 2)):
+                add(*((j, i) if rng.below(2) else (i, j)))
+    if n >= 1 and (rng.below(100) < 10 or "selfbond" in FORCE):
+        i = rng.below(n)
+        add(i, i)
+    if keep_last_single:
+        m.connect(rng.below(n), n)
+
+
+FEATURES: dict[str, int] = {}
+
+
+def _note_features(m):
+    """measured distribution of structural features of the generated sources (written to the evidence file)"""
+    def hit(k):
+        FEATURES[k] = FEATURES.get(k, 0) + 1
+    o = owner(m)
+    hit("sources")
+    if o.n_atoms == 0:
+        hit("source:no-atoms")
+    if has_bonds(o):
+        pairs = [frozenset((id(b.a1), id(b.a2))) for b in o.bonds]
+        if len(pairs) != len(set(pairs)):
+            hit("source:parallel-bonds")
+        if any(b.a1 is b.a2 for b in o.bonds):
+            hit("source:self-bond")
+        bonded = {id(b.a1) for b in o.bonds} | {id(b.a2) for b in o.bonds}
+        if any(id(a) not in bonded for a in o.atoms):
+            hit("source:atom-without-bond")
+        if any(b.attrib for b in o.bonds):
+            hit("source:bond-attrib")
+    labels = [a.label for a in o.atoms if a.label is not None]
+    if len(labels) != len(set(labels)):
+        hit("source:duplicate-labels")
+    if any(a.label == "" or a.isotope == 0 for a in o.atoms):
+        hit("source:falsy-nondefault-field")
+    return m
 
 
 def make_source(rng, kind: str, ml, ap: bool = False):
+    return _note_features(_make_source(rng, kind, ml, ap))
+
+
+def _make_source(rng, kind: str, ml, ap: bool = False):
     """a random object of class `kind`; ap=True: the last atom is an attachment point bonded to exactly one atom"""
     n = rng.range(2 if ap else 1, 6)
+    if not ap and rng.below(100) < 4:
+        n = 0
     if kind == "Promolecule":
         m = ml.Promolecule(n_atoms=n)
     elif kind == "Connectivity":
@@ -380,13 +460,8 @@ def make_source(rng, kind: str, ml, ap: bool = False):
             decorate_light = True
         else:
             m = cls(n_atoms=n, coords=rand_coords(rng, (n, 3)))
-            if ap:
-                k = n - 1  # atoms 0..k-1: a random tree; atom k: the attachment point, one bond
-                for i in range(1, k):
-                    m.connect(rng.below(i), i)
-                m.connect(rng.below(k), k)
-            else:
-                rand_bonds(rng, m)
+            # ap: atoms 0..n-2 a random multigraph; atom n-1 the attachment point, exactly one bond
+            rand_bonds(rng, m, keep_last_single=ap)
         if kind == "Molecule":
             m.atomic_charges = np.array([rng.range(-20, 20) / 8.0 for _ in range(m.n_atoms)])
     elif kind in ("ConformerEnsemble", "Conformer"):
